@@ -42,6 +42,7 @@ func c11(r *core.Run) {
 	r.Explanation = "Exhaustive static rules: every sdk.Msg type of the custom modules returns exactly one signer derived from its Creator field; every service-descriptor method has an implementation registered and every module is in the app's module manager; provider/feed/inbox/block-list/primary-name/file-deletion handlers key their writes by the signer (or by a record loaded with the signer's key, or behind an owner comparison); the wasm binding reaches the storage handler only behind creator==contract and ValidateBasic; the ante chain holds ValidateBasic, SetPubKey and SigVerification in that order."
 	r.Assumptions = []string{T1, T2, T4}
 	r.NotDecided = []string{"signature cryptography (T2)"}
+	r.Rule("C11/R8", "store getters of all custom modules are faithful: each returns on every path the variable its single store read (under the key built from its parameters) was decoded into, otherwise untouched")
 	r.Rule("C11/R1", "signer binding: every type in x/*/types with a GetSigners method returns a one-element slice whose element ⊵ exactly {receiver.Creator}; the set of such types covers all 45 request types of the service descriptors")
 	r.Rule("C11/R2", "routable: every descriptor method has a handler body; each types.RegisterInterfaces registers the Msg service descriptor; each module is constructed in the app's module manager and RegisterServices registers the Msg server")
 	r.Rule("C11/R3", "own-resource keying: provider, collateral, inbox, block-list, primary-name and file deletion writes are keyed by the signer; feed updates are behind Eq(Feed.Owner, signer); feed creation is behind Found=false with Owner:=signer")
@@ -304,6 +305,12 @@ func c11(r *core.Run) {
 	nLW := loadWriteKeyAgreement(r, "C11/R7", hs, rekey)
 	r.Floor("C11/R7", nLW, 15, "load/write pairs")
 
+	// ---- R8 store getters are faithful (the ownership rules above judge "the loaded record")
+	nG := 0
+	for _, m := range core.CustomModules {
+		nG += gettersFaithful(r, "C11/R8", m)
+	}
+	r.Floor("C11/R8", nG, 12, "decoding store getters")
 	// ---- R4 wasm
 	c11Wasm(r, hs)
 	// ---- R5 ante
